@@ -9,6 +9,7 @@ EXPLANATION = (
     "(R-C17-membership) SharedGroup.clients is changed only by add_client / remove_client, and both places that remove members drop groups that became empty. "
     "(R-C17-skipped) in the drop-elaborated MIR of Router::consume the queue of requests set aside with ConsumeStatus::SkipRequest is never dropped on a normal path (it is handed back to the tracker on every exit), "
     "and the polled queue is dropped only behind pop_front()==None; "
+    "(R-C17-index) every write of SharedGroup.current_client_index is 0, `% clients.len()` or gen_range over the half-open 0..clients.len(), so current_client() names a member while the group is non-empty; "
     "NOT decided: at-most-once / completeness over join/leave histories, fairness of the strategies.")
 ASSUMPTIONS = ["rustc MIR construction is correct"]
 TECHNIQUE = "static analysis: edge-sensitive must-pass rules on the forwarder's MIR CFG, who-may-write"
@@ -21,6 +22,7 @@ def run(ctx):
     ctx.guarded("R-C17-cursor", cursor, ctx, prog)
     ctx.guarded("R-C17-membership", membership, ctx, prog)
     ctx.guarded("R-C17-skipped", skipped, ctx, prog)
+    ctx.guarded("R-C17-index", index_in_range, ctx, prog)
 
 
 def skipped(ctx, prog):
@@ -162,3 +164,55 @@ def membership(ctx, prog):
         else:
             ctx.violation(rule, body.id, "empty group kept", "after removing a member the (possibly empty) group is kept: update_next_client would divide by zero / messages would be read for nobody", site=body.loc(t.get("sp")))
     ctx.floor(rule, "member removal sites", sites, 2)
+
+
+def index_in_range(ctx, prog):
+    """current_client() is `clients.get(current_client_index)`: a member exists for every message only while the
+    index stays below clients.len().  Every write of the index is one of: constant 0 (constructor),
+    `<expr> % clients.len()`, or `gen_range(0..clients.len())` with a half-open Range."""
+    rule = "R-C17-index"
+    n = 0
+
+    def is_len(body, op):
+        src = flatten_src(provenance(body, op))
+        return bool(src) and all(x.kind == "call" and x.path.endswith("Vec::<T, A>::len") and
+                                 [y.split(".")[-1] for y in (receiver_fields(body, x.term) or [])][-1:] == ["clients"] for x in src)
+    for body, bi, st in field_writes(prog, "current_client_index"):
+        if body.is_cleanup(bi):
+            continue
+        n += 1
+        rv = st["rv"]
+        why = None
+        if rv["k"] == "bin" and rv["op"] == "Rem" and is_len(body, rv["b"]):
+            why = "<expr> % clients.len()"
+        elif rv["k"] == "use":
+            k = op_const(rv["a"])
+            if k is not None and k.get("v") == 0:
+                why = "constant 0"
+            else:
+                src = flatten_src(provenance(body, rv["a"]))
+                if src and all(x.kind == "call" and x.path.endswith("Rng::gen_range") for x in src):
+                    okr = True
+                    for x in src:
+                        rs = flatten_src(provenance(body, x.term["args"][1]))
+                        for r_ in rs:
+                            if not (r_.kind == "agg" and r_.adt == "std::ops::Range" and (op_const(r_.rv["ops"][0]) or {}).get("v") == 0 and is_len(body, r_.rv["ops"][1])):
+                                okr = False
+                        okr = okr and bool(rs)
+                    if okr:
+                        why = "gen_range(0..clients.len()) (half-open)"
+                elif src and all(x.kind == "op" and getattr(x, "name", "") == "Rem" for x in src):
+                    why = None
+        if why:
+            ctx.ok(rule, body.id, "current_client_index = %s" % why, site=body.loc(st.get("sp")))
+        else:
+            ctx.violation(rule, body.id, "index may leave the member list",
+                          "current_client_index is written with a value not bounded by clients.len() (allowed: 0, `% clients.len()`, gen_range(0..clients.len())): current_client() becomes None, every member skips its turn and the group's messages are never forwarded",
+                          site=body.loc(st.get("sp")))
+    ctx.floor(rule, "writes of SharedGroup.current_client_index", n, 3)
+    cc = prog.one(r"^router::shared_subs::SharedGroup::current_client$")
+    gets = [t for bb, t in cc.calls() if callee_path(t).endswith("::get") and not cc.is_cleanup(bb)]
+    if gets and all(any(getattr(x, "fields", None) and x.fields[-1] == "current_client_index" for x in flatten_src(provenance(cc, t["args"][1]))) for t in gets):
+        ctx.ok(rule, cc.id, "current_client() = clients.get(current_client_index)")
+    else:
+        ctx.violation(rule, cc.id, "current_client lookup", "current_client() no longer looks up clients[current_client_index]", site=cc.fn_loc())
